@@ -7,9 +7,13 @@ import (
 	"github.com/jsightapi/jsight-schema-core/notations/jschema/ischema/constraint"
 )
 
-func collectUserTypes(node ischema.Node) []string {
+// collectUserTypes lists the user types the node refers to. types are the types
+// known to the schema the node belongs to: the alternatives of an "or" rule that
+// are written as rule-sets live there as unnamed types.
+func collectUserTypes(node ischema.Node, types map[string]ischema.Type) []string {
 	c := &userTypesCollector{
 		alreadyProcessed: map[string]struct{}{},
+		types:            types,
 	}
 	c.collect(node)
 	return c.userTypes
@@ -18,6 +22,7 @@ func collectUserTypes(node ischema.Node) []string {
 type userTypesCollector struct {
 	alreadyProcessed map[string]struct{}
 	userTypes        []string
+	types            map[string]ischema.Type
 }
 
 func (c *userTypesCollector) collect(node ischema.Node) {
@@ -46,8 +51,26 @@ func (c *userTypesCollector) collect(node ischema.Node) {
 }
 
 func (c *userTypesCollector) collectUserTypesFromTypesListConstraint(node ischema.Node) {
-	for _, name := range UserTypeNamesFromTypesListConstraint(node) {
-		c.addType(name)
+	cnstr := node.Constraint(constraint.TypesListConstraintType)
+	if cnstr == nil {
+		return
+	}
+
+	list, ok := cnstr.(*constraint.TypesList)
+	if !ok {
+		return
+	}
+
+	for _, name := range list.Names() {
+		switch name[0] {
+		case '@':
+			c.addType(name)
+		case '#':
+			// A rule-set: {type: "@name", nullable: true}.
+			if t, ok := c.types[name]; ok && t.Schema.RootNode() != nil {
+				c.collect(t.Schema.RootNode())
+			}
+		}
 	}
 }
 
